@@ -78,7 +78,8 @@ impl NoiseParams {
     /// # Errors
     /// Will return an error if you try to construct a `NoiseParams` struct with
     /// `success_prob` not in the range [0,1]
-    #[allow(clippy::too_many_arguments)]
+    // The range checks are written `!(x > 0.0)` rather than `x <= 0.0` so that NaN is rejected too.
+    #[allow(clippy::too_many_arguments, clippy::neg_cmp_op_on_partial_ord)]
     pub fn new(
         epsilon: f64,
         delta: f64,
@@ -90,28 +91,28 @@ impl NoiseParams {
         ell_2_sensitivity: f64,
         ell_infty_sensitivity: f64,
     ) -> Result<NoiseParams, String> {
-        if epsilon <= 0.0 {
+        if !(epsilon > 0.0) {
             return Err("epsilon must be > 0.0".to_string());
         }
-        if delta <= 0.0 {
+        if !(delta > 0.0) {
             return Err("delta must be > 0.0".to_string());
         }
         if !(0.0..=MAX_PROBABILITY).contains(&success_prob) {
             return Err("success_prob must be between 0 and 1".to_string());
         }
-        if dimensions <= 0.0 {
+        if !(dimensions > 0.0) {
             return Err("dimensions must be > 0.0".to_string());
         }
-        if quantization_scale <= 0.0 {
+        if !(quantization_scale > 0.0) {
             return Err("quantization_scale must be > 0.0".to_string());
         }
-        if ell_1_sensitivity <= 0.0 {
+        if !(ell_1_sensitivity > 0.0) {
             return Err("ell_1_sensitivity must be > 0.0".to_string());
         }
-        if ell_2_sensitivity <= 0.0 {
+        if !(ell_2_sensitivity > 0.0) {
             return Err("ell_2_sensitivity must be > 0.0".to_string());
         }
-        if ell_infty_sensitivity <= 0.0 {
+        if !(ell_infty_sensitivity > 0.0) {
             return Err("ell_infty_sensitivity must be > 0.0".to_string());
         }
         Ok(NoiseParams {
